@@ -18,10 +18,9 @@ class SshdFamily(Family):
     def __init__(self, prop):
         self.prop = prop
         self.driver_args = ["sshd", prop]
-        if prop == "C19":
-            # one metrics provider and registry across 40 consecutive lines (as in one daemon run),
-            # counters read before and after each line
-            self.harness_mode = ["sshd", "batch=40"]
+        # one processor, metrics provider and registry across 40 consecutive lines (as in one daemon
+        # run); the counters are read before and after each line
+        self.harness_mode = ["sshd", "batch=40"]
 
     def harness_line(self, c):
         return G.case_line(c["id"], c, with_form=False)
